@@ -1,4 +1,4 @@
-CONSTANTS Families = {"free5", "full4", "nop4", "db4", "incl4"}
+CONSTANTS Families = {"free5", "full4", "focus7", "nop4", "db4", "incl4"}
  Family <- FullFamily
  MaxSects = 2
  MaxDepth = 2
